@@ -74,6 +74,8 @@ type World struct {
 	flowsJudged, flowsDenied, flowsAllowed int
 	followUpDone                           bool
 	c16Skipped                             bool
+	typeConflict                           bool     // an ipset create was refused because the name is taken by a set of another type
+	changed2                               []string // commands of the second synchronisation that changed kernel state
 
 	// C16 at event quiescence (events.go)
 	view       *Cluster // the cluster as the informer views show it
@@ -240,8 +242,55 @@ func (w *World) setupPriorKernel() {
 				n++
 			}
 		}
+		// foreign sets of types galaxy never uses
+		if c.Prob(1, 2) {
+			k.MustIPSet("create", "KUBE-NODE-PORT-TCP", "bitmap:port", "range", "0-65535")
+			k.MustIPSet("add", "KUBE-NODE-PORT-TCP", "30080")
+			k.MustIPSet("create", "KUBE-LOOP-BACK", "hash:ip,port,ip")
+			k.MustIPSet("add", "KUBE-LOOP-BACK", "10.244.1.9,tcp:80,10.244.1.9")
+		}
 		desc = append(desc, fmt.Sprintf("foreign(%d)", n))
+		if w.F.Lookalikes {
+			// foreign objects whose names merely resemble galaxy's (no galaxy comment, not galaxy's scheme)
+			if c.Prob(1, 2) {
+				k.MustRestore("*filter\n:GLX-FOO - [0:0]\n-A GLX-FOO -s 10.7.0.0/16 -j ACCEPT\nCOMMIT\n")
+			}
+			if c.Prob(1, 2) {
+				k.MustRestore("*filter\n:GLX-PLCYBACKUP - [0:0]\n-A GLX-PLCYBACKUP -p tcp -m tcp --dport 22 -j ACCEPT\nCOMMIT\n")
+			}
+			if c.Prob(1, 2) {
+				k.MustIPSet("create", "GLXFW", "hash:ip")
+				k.MustIPSet("add", "GLXFW", "10.7.0.1")
+			}
+			if c.Prob(1, 2) {
+				k.MustIPSet("create", "GLX-backup", "hash:net")
+				k.MustIPSet("add", "GLX-backup", "10.7.0.0/16")
+			}
+			desc = append(desc, "lookalikes")
+		}
 	}
+	defer func() {
+		if w.F.Foreign && c.Prob(1, 3) {
+			// foreign rules in front of galaxy's jumps (inserted by another agent after galaxy ran)
+			k.MustRestore("*filter\n-I FORWARD -s 10.8.0.0/16 -j ACCEPT\n-I INPUT -i lo -j ACCEPT\n-I OUTPUT -o lo -j ACCEPT\nCOMMIT\n")
+			w.priorDesc += "+foreign-first"
+		}
+		if w.F.TypeConflict && len(w.cl.Pols) > 0 {
+			// a set under one of galaxy's names for a current policy, of the other hash type (what an older or a
+			// differently configured galaxy may have left)
+			e := compile(w.cl, Switches{D6: true})
+			names := sortedKeys(e.Sets)
+			n := names[c.Choose(len(names))]
+			if k.Sets[n] == nil {
+				other := "hash:net"
+				if e.Sets[n].Type == "hash:net" {
+					other = "hash:ip"
+				}
+				k.MustIPSet("create", n, other)
+				w.priorDesc += "+set-type-conflict"
+			}
+		}
+	}()
 	mode := c.Choose(3)
 	if mode == 1 && len(w.cl.Pols) == 0 {
 		mode = 2 // "in sync" with a cluster without policies is the empty state again: use the draw for a ghost
@@ -320,7 +369,8 @@ func foreignText(k *simkernel.Kernel) string {
 	var sb strings.Builder
 	for _, line := range strings.Split(k.Save("filter"), "\n") {
 		switch {
-		case strings.HasPrefix(line, ":GLX-"), strings.HasPrefix(line, "-A GLX-"):
+		case strings.HasPrefix(line, ":") && owned(strings.Fields(line[1:])[0]):
+		case strings.HasPrefix(line, "-A ") && owned(strings.Fields(line)[1]):
 		case strings.HasPrefix(line, "-A ") && (strings.HasSuffix(line, " -j "+ingressDispatch) || strings.HasSuffix(line, " -j "+egressDispatch)):
 		default:
 			sb.WriteString(line + "\n")
